@@ -176,6 +176,24 @@ func (t *T) Protect(sig, input string, f func()) (panicked bool) {
 
 // PanicSite extracts the innermost cedar-go frame (file:func) from a stack, used as
 // the call-site part of a signature.
+// PanicInLibrary reports whether the innermost non-runtime frame of a recovered panic is
+// code of the library under test (and not of the harness).
+func PanicInLibrary(stack string) bool {
+	lines := strings.Split(stack, "\n")
+	seenPanic := false
+	for _, l := range lines {
+		if strings.HasPrefix(l, "panic(") {
+			seenPanic = true
+			continue
+		}
+		if !seenPanic || strings.HasPrefix(l, "\t") || strings.HasPrefix(l, "runtime.") || strings.HasPrefix(l, "runtime/") {
+			continue
+		}
+		return strings.HasPrefix(l, "github.com/cedar-policy/cedar-go/") && !strings.HasPrefix(l, "github.com/cedar-policy/cedar-go/verif/")
+	}
+	return false
+}
+
 func PanicSite(stack string) string {
 	lines := strings.Split(stack, "\n")
 	seenPanic := false
@@ -293,7 +311,12 @@ func runFamily(c *Check, f *Family, tier string, res *result, deadline time.Time
 					// A panic escaping Run is a harness error unless the check
 					// protects the call itself; report it loudly.
 					st := string(debug.Stack())
-					t.Fail("harness-panic:"+f.Name+":"+PanicSite(st), fmt.Sprintf("case %d", i), "no panic", fmt.Sprintf("%v\n%s", r, clip(st)))
+					if PanicInLibrary(st) {
+						// the innermost frame is library code: the call under test did not return
+						t.Fail("library-panic:"+f.Name+":"+PanicSite(st), fmt.Sprintf("case %d", i), "the call returns (a value or an error)", fmt.Sprintf("panic: %v\n%s", r, clip(st)))
+					} else {
+						t.Fail("harness-panic:"+f.Name+":"+PanicSite(st), fmt.Sprintf("case %d", i), "no panic", fmt.Sprintf("%v\n%s", r, clip(st)))
+					}
 				}
 			}()
 			f.Run(t, i)
